@@ -157,6 +157,7 @@ type FuncContract struct {
 	Mayalloc  bool
 	Pure      bool
 	Cases     []*Clause // proof by cases: the function is verified once per truth assignment
+	LockRequires []*Clause // monitors: what the caller guarantees about the guarded state when the lock is taken
 }
 
 // Key is the name used to bind the contract to an ssa function: Name, (T).Name or (*T).Name.
@@ -204,6 +205,8 @@ type Monitor struct {
 	Mu     string
 	Guards []string
 	Inv    []*Clause
+	Recv   string
+	StoreRules []*Clause // Label = field name
 }
 
 type Directive struct {
